@@ -44,7 +44,7 @@ def determinism(props):
                 for rep in range(2 if gmp == "16" else 1):
                     d = tempfile.mkdtemp(prefix="verif-det-", dir=os.environ.get("VERIF_SCRATCH", "/var/tmp"))
                     env = dict(ENV, VERIF_SEED=str(seed), VERIF_SCALE=scale, GOMAXPROCS=gmp, VERIF_EVIDENCE_DIR=d, VERIF_REPLAY_DIR=d)
-                    r = subprocess.run(f"./run.sh {p} quick", cwd=VERIF, shell=True, env=env, capture_output=True, text=True)
+                    r = subprocess.run(f"./run.sh {p} quick", cwd=VERIF, shell=True, env=env, capture_output=True, text=True, errors="replace")
                     total += 1
                     try:
                         ev = json.load(open(os.path.join(d, p + ".json")))
@@ -64,7 +64,7 @@ def determinism(props):
 
 
 def sh(cmd, cwd):
-    return subprocess.run(cmd, cwd=cwd, env=ENV, shell=True, capture_output=True, text=True)
+    return subprocess.run(cmd, cwd=cwd, env=ENV, shell=True, capture_output=True, text=True, errors="replace")
 
 
 def sensitivity(sel):
@@ -90,7 +90,7 @@ def sensitivity(sel):
         env = dict(ENV, VERIF_REPO=wt, VERIF_EVIDENCE_DIR=os.path.join(base, "ev"), VERIF_REPLAY_DIR=os.path.join(base, "rp"))
         if not os.environ.get("SELFTEST_SKIP_CLEAN"):
             for p in props:
-                r = subprocess.run(f"./run.sh {p} quick", cwd=VERIF, shell=True, env=env, capture_output=True, text=True)
+                r = subprocess.run(f"./run.sh {p} quick", cwd=VERIF, shell=True, env=env, capture_output=True, text=True, errors="replace")
                 print(f"clean tree {p}: exit {r.returncode}")
                 if r.returncode != 0:
                     print(r.stdout[-500:], r.stderr[-500:]); missed += 1
@@ -100,7 +100,7 @@ def sensitivity(sel):
             if r.returncode != 0:
                 print(f"{name}: patch does not apply: {r.stderr[-200:]}"); missed += 1; continue
             t0 = time.time()
-            r = subprocess.run(f"./run.sh {p} quick", cwd=VERIF, shell=True, env=env, capture_output=True, text=True)
+            r = subprocess.run(f"./run.sh {p} quick", cwd=VERIF, shell=True, env=env, capture_output=True, text=True, errors="replace")
             line = next((l for l in r.stdout.splitlines() if l.startswith("violation class=")), "")
             ok = r.returncode == 1
             results[name] = {"detected": ok, "exit": r.returncode, "wall_s": round(time.time() - t0, 1), "report": line[:300]}
